@@ -222,6 +222,11 @@ func ParseSliceHeader(nalu []byte, spsMap map[uint32]*SPS, ppsMap map[uint32]*PP
 					sh.NumLongTermSps = uint8(r.ReadExpGolomb())
 				}
 				sh.NumLongTermPics = r.ReadExpGolomb()
+				if uint(sh.NumLongTermSps)+sh.NumLongTermPics > uint(len(nalu))*8 {
+					// Every long-term entry takes at least one bit (delta_poc_msb_present_flag) of the header
+					return sh, fmt.Errorf("num_long_term_sps %d + num_long_term_pics %d do not fit into a NAL unit of %d bytes",
+						sh.NumLongTermSps, sh.NumLongTermPics, len(nalu))
+				}
 				for i := uint(0); i < uint(sh.NumLongTermSps)+sh.NumLongTermPics; i++ {
 					var lt LongTermRPS
 					if i < uint(sh.NumLongTermSps) {
